@@ -27,7 +27,23 @@ def run_property(prop: str, tier: str, seed: int, only_keys: set[str] | None = N
     ctx.stats['program'] = {'modules_parsed': len(prog.modules), 'functions': len(prog.all_functions(src_only=False)),
                             'classes': len(prog.all_classes(src_only=False)),
                             'constructs_renormalised_against_reference': getattr(prog, 'alpha_renamed', 0)}
-    mod.run(ctx)
+    # generic templates first: they need no anchor inside the property's own functions
+    from .rules.memo import run_memo
+    from .rules.own import run_own
+    run_memo(ctx)
+    run_own(ctx)
+    try:
+        mod.run(ctx)
+    except Exception as e:
+        # a rule lost its anchor / met an unknown idiom.  If other rules have already established a violation
+        # that verdict stands (exit 1); otherwise the run is analysis-broken (exit 2).
+        from .report import load_known
+        known = {k['key'] for k in load_known() if k.get('status') == 'known'}
+        if not any((not o.ok) and o.key not in known for o in ctx.obligations):
+            raise
+        msg = str(e) if isinstance(e, AnalysisError) else f'internal: {type(e).__name__}: {e}'
+        ctx.note(f'rules not completed: {msg}')
+        print(f'NOTE property={prop} remaining rules not completed ({msg[:200]}); the violations below were established before that')
     extra = {}
     if tier == 'thorough' and hasattr(mod, 'thorough'):
         extra = mod.thorough(ctx) or {}
